@@ -96,7 +96,7 @@ func (p *Prog) lpath(v ssa.Value) string {
 	case *ssa.Field:
 		return p.lpath(x.X) + "." + fieldName(x)
 	case *ssa.FieldAddr:
-		return "&" + p.basePath(x.X) + "." + fieldName(x)
+		return "&" + p.locPath(x)
 	case *ssa.ChangeType:
 		return p.lpath(x.X)
 	case *ssa.ChangeInterface:
@@ -143,6 +143,16 @@ func (p *Prog) basePath(x ssa.Value) string {
 func (p *Prog) locPath(addr ssa.Value) string {
 	switch a := addr.(type) {
 	case *ssa.FieldAddr:
+		if len(fieldAlias) > 0 {
+			// a field that moved into a new nested struct keeps the path it had: drop the nested segment
+			if k, ok := rawOwnerKey(a); ok {
+				if _, moved := fieldAlias[k]; moved {
+					if inner, ok := a.X.(*ssa.FieldAddr); ok {
+						return p.basePath(inner.X) + "." + fieldName(a)
+					}
+				}
+			}
+		}
 		return p.basePath(a.X) + "." + fieldName(a)
 	case *ssa.Alloc:
 		if pn := p.paramCell(a); pn != "" {
